@@ -477,6 +477,24 @@ def _gen(pal, thorough):
                 for zsign in ([-1.0, -1.0], [1.0, -1.0], [-1.0, 1.0]):
                     for okind, rows in (('minsup_E', 'basic+E'), ('minsup_Ebi', 'robust_bi'), ('minsup_Epw', 'Epw<=')):
                         yield make(S=S, dz=2, pal=pal, supp=supp, ex=ex, pr=pr, okind=okind, rows=rows, ny=1, zsign=zsign)
+    # Q8: late declaration histories - the model is completely built with a DECOY declaration of the ambiguity set
+    #     (small boxes, uniform probabilities, no expectation information), formulated once (solve / do_math / dual /
+    #     both), and only then the declared supports, expectation sets and probability set are given, in every spelling
+    j = 0
+    for S in (1, 2, 3):
+        for supp in ('single', 'box', 'abs', 'n1', 'tri', 'ninf*') if not thorough else SUPPS:
+            for ex, pr in (('none', 'free'), ('allbox', 'fixed'), ('sub0', 'box'), ('sublast', 'n1'), ('noncontig', 'ninf'),
+                           ('alln1', 'free')):
+                for mode in ('S', 'P', 'D', 'PD'):
+                    for okind, rows in (('minsup_E', 'basic+E'), ('minsup_Epw', 'basic')):
+                        j += 1
+                        sp = make(S=S, dz=1 + j % 2, pal=pal, supp=supp, ex=ex, pr=pr, okind=okind, rows=rows,
+                                  ny=1 if okind == 'minsup_E' else 0, labels=j, supp_decl=(DECLS + ['global'])[j % 4],
+                                  ex_decl=['auto', 'iloc', 'loc', 'index'][j % 4])
+                        if sp is not None:
+                            sp['late'] = mode
+                            sp['tag'] += '|late:' + mode
+                        yield sp
     # global support declaration
     for S in (2, 3):
         for supp in SUPPS:
